@@ -30,7 +30,7 @@ def prepare(ctx):
 def cases(ctx):
     i = 0
     counts = list(range(1, 13)) + [50, 53, 64]
-    reps = 1 if ctx.tier == 'quick' else 8
+    reps = 1 if ctx.tier == 'quick' else 24
     for rep in range(reps):
         for k in counts:
             for enc in ASCII_FAMILY + EBCDIC_FAMILY:
